@@ -53,7 +53,16 @@ static Case decode(Tape& t)
             for (int v : vals) c.sl[0].push_back(-v);
             if (t.chance(1, 3)) c.sl[0].push_back(-(c.lower0 + 1));    // a stale, repeated signal at the end
         }
-        int maxu = c.lower0 + nsig + c.max_diff;    // every wait(u<=maxu) is eventually satisfiable
+        // the signalling thread may widen the window (set_max_difference keeps the lower limit it has reached) somewhere before its
+        // last signal: waiters that are already blocked must see the new distance at their next wake-up
+        int final_diff = c.max_diff;
+        if (t.chance(1, 3))
+        {
+            final_diff = c.max_diff + 1 + static_cast<int>(t.below(3));
+            std::size_t pos = t.below(static_cast<std::uint32_t>(c.sl[0].size()));    // before the op at `pos`: at least one signal follows
+            c.sl[0].insert(c.sl[0].begin() + static_cast<long>(pos), 3000 + final_diff);
+        }
+        int maxu = c.lower0 + nsig + final_diff;    // every wait(u<=maxu) is eventually satisfiable
         for (int i = 1; i < nth; ++i)
         {
             int n = 1 + static_cast<int>(t.below(4));
@@ -113,7 +122,8 @@ static std::string describe(tape_t const& tape)
             os << (i ? ", " : "") << "\"";
             for (int v : c.sl[i])
             {
-                if (v > 1000) os << "try_wait(" << v - 1000 << ") ";
+                if (v >= 3000) os << "set_max_difference(" << v - 3000 << ") ";
+                else if (v > 1000) os << "try_wait(" << v - 1000 << ") ";
                 else if (v > 0) os << "wait(" << v << ") ";
                 else if (v < 0) os << "signal(" << -v << ") ";
                 else os << "try_wait(1) ";
@@ -254,6 +264,8 @@ static Outcome run_sliding(Case const& c, Tape& t)
     vt::Sched s;
     pika::sliding_semaphore sem(c.max_diff, c.lower0);
     long long max_signal_started = c.lower0, max_signal_done = c.lower0, blocked = 0, out_of_order = 0;
+    long long widest = c.max_diff;    // largest max_difference whose setting has started
+    bool widened = false;
     std::string fail;
     for (std::size_t i = 0; i < c.sl.size(); ++i)
     {
@@ -267,12 +279,18 @@ static Outcome run_sliding(Case const& c, Tape& t)
                     sem.signal(-v);
                     max_signal_done = std::max<long long>(max_signal_done, -v);
                 }
+                else if (v >= 3000)
+                {
+                    widest = std::max<long long>(widest, v - 3000);
+                    widened = true;
+                    sem.set_max_difference(v - 3000, max_signal_done);
+                }
                 else if (v > 1000)
                 {
                     int u = v - 1000;
                     long long done_before = max_signal_done;
                     bool r = sem.try_wait(u);
-                    if (r && u - c.max_diff > max_signal_started && fail.empty())
+                    if (r && u - widest > max_signal_started && fail.empty())
                         fail = "try_wait(" + std::to_string(u) + ") succeeded although upper-max_difference exceeds the largest signalled lower limit " + std::to_string(max_signal_started);
                     if (!r && u - c.max_diff <= done_before && fail.empty())
                         fail = "try_wait(" + std::to_string(u) + ") failed although lower limit " + std::to_string(done_before) + " had been signalled before the call (max_difference " +
@@ -283,14 +301,14 @@ static Outcome run_sliding(Case const& c, Tape& t)
                     long long sw = s.switches;
                     sem.wait(v);
                     if (s.switches != sw) ++blocked;
-                    if (v - c.max_diff > max_signal_started && fail.empty())
-                        fail = "wait(" + std::to_string(v) + ") returned although upper-max_difference=" + std::to_string(v - c.max_diff) +
+                    if (v - widest > max_signal_started && fail.empty())
+                        fail = "wait(" + std::to_string(v) + ") returned although upper-max_difference=" + std::to_string(v - widest) +
                             " exceeds the largest signalled lower limit " + std::to_string(max_signal_started);
                 }
                 else
                 {
                     bool r = sem.try_wait(1);
-                    if (r && 1 - c.max_diff > max_signal_started && fail.empty()) fail = "try_wait(1) succeeded outside the window";
+                    if (r && 1 - widest > max_signal_started && fail.empty()) fail = "try_wait(1) succeeded outside the window";
                 }
             }
         });
@@ -306,6 +324,7 @@ static Outcome run_sliding(Case const& c, Tape& t)
     out.nontrivial = blocked > 0;
     out.tags.push_back("kind:sliding");
     if (out_of_order) out.tags.push_back("saw:out_of_order_signal");
+    if (widened) out.tags.push_back("has:set_max_difference_widening");
     if (blocked) out.tags.push_back("saw:blocked_wait_released");
     return out;
 }
